@@ -47,7 +47,8 @@ def run(ctx):
         ctx, 'scc', 'vf.rtc.graph_rtc', 'check_scc_case', cases,
         rule='every labelled digraph with <=3 nodes under every node insertion order and 2 edge orders; '
              'every digraph with 4 nodes (65,536 edge sets) under >=2 insertion orders; sampled 5-node and '
-             'seeded random <=12-node digraphs; oracle = mutual reachability by closure; '
+             'seeded random <=12-node digraphs; oracle = mutual reachability by closure; per graph also: a second call, a call after a generator '
+             'abandoned at its first component (on a fresh graph object), a call after add_edge of a missing edge; '
              'non-trivial = at least one edge; distinct by literal (nodes order, edge order)',
         nontrivial='scc_case_nontrivial', exhaustive=False)
     driver.run_cases(ctx, 'scc-type', 'vf.rtc.graph_rtc', 'check_scc_type', [0],
